@@ -1346,7 +1346,7 @@ pub fn check_exit(c: &ExitCase) -> Verdict {
 
 // ------------------------------------------------------------ big_listing ---
 
-/// Subcheck `big_listing`: a tree of a few thousand files with long names, listed (`--files`) or searched
+/// Subcheck `failed_search`: 10-60 files plus 1-6 files whose --pre command writes the file and then exits 3 (their search fails after it has produced results), --heading output, two thread counts x 2 runs: apart from the failing files' own blocks (left open: the serial driver has streamed them, the parallel one drops them) every block must be the -j1 block, once, with exactly one blank line between blocks and the same exit status. Subcheck `big_listing`: a tree of a few thousand files with long names, listed (`--files`) or searched
 /// (`-l`, `-c`) with several threads while the consumer of stdout falls behind for a moment, so that
 /// whatever sits between the walker threads and the printer (channel, buffers) fills up. The set of
 /// reported paths must equal the -j1 set: nothing omitted, nothing twice, same status, empty stderr.
@@ -1509,6 +1509,181 @@ pub fn check_big(c: &BigCase) -> Verdict {
     Verdict::Pass(info)
 }
 
+// ---------------------------------------------------------- failed_search ---
+
+/// Subcheck `failed_search`: some files are searched through a `--pre` command that writes the file and
+/// then exits with status 3, so their search fails after it has produced results. What the failed files
+/// themselves contribute is left open (the serial driver has streamed their partial results by then, the
+/// parallel one drops them - the property's quantifier has no failing searches); every other file's block
+/// must be the -j1 block, once, with the blank line of `--heading` exactly between blocks, and the exit
+/// status must be that of the -j1 run.
+#[derive(Clone, Debug, Serialize, Deserialize)]
+pub struct FailedCase {
+    pub n_ok: u16,
+    pub n_broken: u8,
+    pub n_dirs: u8,
+    /// lines per file (every second one holds the needle)
+    pub lines: u8,
+    pub line_numbers: bool,
+    pub threads: Vec<u8>,
+    pub repeats: u8,
+}
+
+pub fn gen_failed_case(t: &mut Tape) -> FailedCase {
+    let mut threads = vec![*t.pick(&[2u8, 4, 3, 8])];
+    let second = *t.pick(&[8u8, 2, 3, 4, 16]);
+    if !threads.contains(&second) {
+        threads.push(second);
+    }
+    FailedCase {
+        n_ok: 10 + t.below(50) as u16,
+        n_broken: 1 + t.below(6) as u8,
+        n_dirs: 1 + t.below(3) as u8,
+        lines: 1 + t.below(6) as u8,
+        line_numbers: t.bool(),
+        threads,
+        repeats: 2,
+    }
+}
+
+/// `--heading` output cut at blank lines: path line -> the block's remaining lines.
+fn heading_blocks(out: &[u8]) -> Result<Vec<(Vec<u8>, Vec<u8>)>, String> {
+    let mut blocks: Vec<&[u8]> = vec![];
+    if out.is_empty() {
+        return Ok(vec![]);
+    }
+    if !out.ends_with(b"\n") || out.starts_with(b"\n") || out.ends_with(b"\n\n") {
+        return Err("output starts or ends with a blank line, or lacks its final newline".into());
+    }
+    let body = &out[..out.len() - 1];
+    let mut start = 0;
+    let mut i = 0;
+    while i + 1 < body.len() {
+        if body[i] == b'\n' && body[i + 1] == b'\n' {
+            blocks.push(&body[start..i]);
+            start = i + 2;
+            if body.get(start) == Some(&b'\n') {
+                return Err("two blank lines in a row".into());
+            }
+            i = start;
+        } else {
+            i += 1;
+        }
+    }
+    blocks.push(&body[start..]);
+    let mut out = vec![];
+    for b in blocks {
+        let cut = b.iter().position(|c| *c == b'\n').unwrap_or(b.len());
+        out.push((b[..cut].to_vec(), b[(cut + 1).min(b.len())..].to_vec()));
+    }
+    Ok(out)
+}
+
+pub fn check_failed(c: &FailedCase) -> Verdict {
+    if c.n_ok == 0 || c.n_broken == 0 || c.n_dirs == 0 || c.lines == 0 || c.threads.is_empty() || c.repeats == 0 || c.n_ok > 400 {
+        return Verdict::Reject("outside the generated domain");
+    }
+    let tmp = TempDir::fast("c08fail");
+    let root = tmp.path.join("t");
+    let mut content = Vec::new();
+    for l in 0..c.lines {
+        content.extend_from_slice(if l % 2 == 0 { b"needle here\n" } else { b"nothing\n" });
+    }
+    let total = c.n_ok as usize + c.n_broken as usize;
+    let mut names: Vec<String> = vec![];
+    for i in 0..total {
+        let d = i % c.n_dirs as usize;
+        // spread the broken files over the listing
+        let broken = i % (total / c.n_broken as usize).max(1) == 0 && names.iter().filter(|n| n.contains("broken")).count() < c.n_broken as usize;
+        let name = format!("d{d}/{}{i}.txt", if broken { "broken" } else { "ok" });
+        let p = root.join(&name);
+        if std::fs::create_dir_all(p.parent().unwrap()).is_err() || std::fs::write(&p, &content).is_err() {
+            return Verdict::Reject("could not build the tree");
+        }
+        names.push(name);
+    }
+    let script = tmp.path.join("pre.sh");
+    if write_script(&script, "#!/bin/sh\ncat -- \"$1\"\ncase \"$1\" in *broken*) exit 3;; esac\n").is_err() {
+        return Verdict::Reject("could not write the --pre script");
+    }
+    let mk = |threads: u8| {
+        let rg = Rg::new(&root).args(["--no-config", "--color", "never", "--no-ignore", "--heading", &format!("-j{threads}")]);
+        let rg = if c.line_numbers { rg.arg("-n") } else { rg.arg("-N") };
+        rg.arg("--pre").arg(script.to_str().unwrap_or("pre.sh")).arg("needle").timeout(std::time::Duration::from_secs(60))
+    };
+    let r = mk(1).run();
+    if r.timed_out || r.status.is_none() {
+        return Verdict::Reject("reference run timed out or was killed");
+    }
+    let describe = |what: String, g: &Out, n: u8| {
+        Fail::new(format!(
+            "{what}\n case: {}\n cmd: {} (reference: the same with -j1)\n -j1: status {:?}, stdout {}\n -j{n}: status {:?}, stdout {}\n -j{n} stderr: {}",
+            serde_json::to_string(c).unwrap_or_default(),
+            mk(n).cmdline(),
+            r.status,
+            clip(&r.stdout),
+            g.status,
+            clip(&g.stdout),
+            clip(&g.stderr)
+        ))
+    };
+    let want = match heading_blocks(&r.stdout) {
+        Ok(b) => b,
+        Err(e) => return Verdict::Fail(describe(format!("the -j1 output does not cut into --heading blocks: {e}"), &r, 1)),
+    };
+    let want_map: HashMap<Vec<u8>, Vec<u8>> = want.iter().cloned().collect();
+    let n_ok_blocks = want.iter().filter(|(p, _)| !p.windows(6).any(|w| w == b"broken")).count();
+    if n_ok_blocks != c.n_ok as usize || r.status != Some(2) {
+        return Verdict::Fail(describe(
+            format!("-j1: {} of the {} files whose search succeeds have a block, status {:?} (expected all of them and status 2: some searches failed)", n_ok_blocks, c.n_ok, r.status),
+            &r,
+            1,
+        ));
+    }
+    let mut runs = 0u64;
+    for &n in &c.threads {
+        for _ in 0..c.repeats {
+            let g = mk(n).run();
+            runs += 1;
+            if g.timed_out {
+                return Verdict::Reject("multi-threaded run timed out (inconclusive)");
+            }
+            if resource_trouble(&g.stderr) {
+                return Verdict::Reject("resource trouble in the multi-threaded run");
+            }
+            if g.status != r.status {
+                return Verdict::Fail(describe("exit status differs from the -j1 run".into(), &g, n));
+            }
+            let got = match heading_blocks(&g.stdout) {
+                Ok(b) => b,
+                Err(e) => return Verdict::Fail(describe(format!("the -j{n} output does not cut into blocks separated by exactly one blank line: {e}"), &g, n)),
+            };
+            let mut seen: BTreeSet<Vec<u8>> = BTreeSet::new();
+            for (p, body) in &got {
+                let Some(w) = want_map.get(p) else {
+                    return Verdict::Fail(describe(format!("a block of the -j{n} output starts with {}, which heads no block of the -j1 output", clip(p)), &g, n));
+                };
+                if !seen.insert(p.clone()) {
+                    return Verdict::Fail(describe(format!("{} has two blocks in the -j{n} output", clip(p)), &g, n));
+                }
+                if w != body {
+                    return Verdict::Fail(describe(format!("the block of {} differs from its -j1 block: {} vs {}", clip(p), clip(body), clip(w)), &g, n));
+                }
+            }
+            for (p, _) in &want {
+                if !p.windows(6).any(|w| w == b"broken") && !seen.contains(p) {
+                    return Verdict::Fail(describe(format!("{} (its search succeeds) has a block in the -j1 output but none in the -j{n} output", clip(p)), &g, n));
+                }
+            }
+        }
+    }
+    let mut info = Info::new(true);
+    info.class_if(c.n_broken >= 3, "three_or_more_failing_searches");
+    info.class_if(c.line_numbers, "line_numbers");
+    let _ = runs;
+    Verdict::Pass(info)
+}
+
 pub fn run(pc: &PropCtx) {
     pc.rule(
         "each case = a generated tree (5-60 files in <= 9 directories up to 3 deep, file sizes 0 B .. ~1 MB with a total of <= ~2 MB, prefix-free paths, needle `hit<n>` on none / one / a few / most lines, optionally one file with a NUL byte, never one that is read through the --pre pipe: there the cut-off point of binary detection depends on read sizes even with -j1), one output mode (standard --heading / --no-heading / with -A/-B context / --passthru, --count / --count-matches (--include-zero), -l / --files-without-match, --json (with context), --files), 0-2 extra flags, a root spelling (implicit cwd, ./, named directory, every top-level entry as an argument), a set of thread counts from {2,3,4,8,16} and R repeats per count; a quarter of the searching cases run every file (or only *.z files) through a generated --pre script that sleeps 0-20 ms per file (from a hash of the file name) before cat. Oracle: the -j1 output is cut into per-file blocks (heading line / path prefix / JSON begin..end) and must itself have exactly the file separator of the mode between blocks (one tolerated, counted deviation of the -j1 printer: no separator in front of a block that is only a `binary file matches` notice); every -jN output must cut the same way into the same set of byte-identical blocks (JSON: after removing elapsed fields; summary equal), each once, separators exactly between blocks, same exit status, empty stderr. Subcheck `sorted`: with --sort path / --sortr path every -jN output is byte-identical to the -j1 output in all repeats and the blocks are in path order. Subcheck `exit_status`: 30-90 one-line files of which none / one / two contain the needle, searched 60 (thorough: 200) times with 4-16 threads (every third run with the jittered hook build) in standard / --count / -l / -q mode: exit status and the set of output lines must equal the -j1 run every time; a deviation is reported once it has been seen a second time within 1500 further runs. Subcheck `big_listing`: 1500-6000 files with 30-90 byte name padding in 1-40 directories, listed (--files) or searched (-l, -c) with two thread counts while the consumer waits 0-600 ms before its first read (so that the pipe and whatever queues sit in front of the printer fill up); the set of reported paths, the status and stderr must equal the -j1 run (a deviation counts when two of three runs show it). Non-trivial = at least 3 files with output and the block order differed from the -j1 order in at least one run (sorted: the same command without --sort produced a different order); distinct by hash of the case. Schedules are picked by the OS: the claim is `no violation in N perturbed runs`; classes `distinct_orders>=k` and the totals in `notes` measure how much scheduling variety was observed",
@@ -1607,6 +1782,9 @@ pub fn run(pc: &PropCtx) {
     pc.run_tape("big_listing", big_cases, (8, 40), gen_big_case, check_big);
     pc.require_class("big_listing:consumer_paused", big_cases as u64 / 3);
 
+    let failed_cases = pc.tier.pick(16, 200);
+    pc.run_tape("failed_search", failed_cases, (8, 40), gen_failed_case, check_failed);
+
     let unconfirmed = unconfirmed.into_inner().unwrap();
     if let Some(first) = unconfirmed.first() {
         let cut: String = first.chars().take(6000).collect();
@@ -1644,6 +1822,10 @@ pub fn replay(_pc: &PropCtx, sub: &str, case: &serde_json::Value) -> Result<Verd
     if sub == "exit_status" {
         let c: ExitCase = serde_json::from_value(case.clone()).map_err(|e| e.to_string())?;
         return Ok(check_exit(&c));
+    }
+    if sub == "failed_search" {
+        let c: FailedCase = serde_json::from_value(case.clone()).map_err(|e| e.to_string())?;
+        return Ok(check_failed(&c));
     }
     if sub == "big_listing" {
         let c: BigCase = serde_json::from_value(case.clone()).map_err(|e| e.to_string())?;
